@@ -126,6 +126,13 @@ def call_func(ex, name, args, kwargs, e):
         v = args[0]
         if isinstance(v, (VRowList, VList)):
             return VZ(v.n, "int")
+        if isinstance(v, VSet):
+            if v.mem is None:
+                return VConst(0)
+            n = Function("setcard_" + v.kind, ArraySort(sort_of(v.kind), BOOL), INT)(v.mem)
+            ex.assume(n >= 0)      # |set|: uninterpreted, non-negative (A3)
+            ex.assume((n == 0) == Not(EX([sort_of(v.kind)], lambda y: v.mem[y])))
+            return VZ(n, "int")
         if isinstance(v, VListeners):
             from .symex import card
             return VZ(card(ex.st.heap["Mailbox._listeners"][v.obj]), "int")
